@@ -155,8 +155,20 @@ def run(ctx):
                 ok = ("Job.parent_id" in t) if col == "parent_id" else True
             else:
                 tmodel = {"task": "Task", "value": "Value", "call_node": "CallNode", "job": "Job", "execution": "Execution", "tag": "Tag"}.get((target or "").split(".")[0])
-                yields = [y for y in ast.walk(wf) if isinstance(y, ast.Yield) and isinstance(y.value, ast.Tuple) and len(y.value.elts) == 3 and src(y.value.elts[1]) == tmodel]
-                ok = f"{model}.{col}" in t and bool(yields)
+                ok = False
+                for lp in ast.walk(wf):
+                    if not isinstance(lp, ast.For):
+                        continue
+                    q = next((c for c in ast.walk(lp.iter) if isinstance(c, ast.Call) and last_attr(c) == "query"), None)
+                    if q is None:
+                        continue
+                    colsq = [src(a) for a in q.args]
+                    tg = [src(e) for e in lp.target.elts] if isinstance(lp.target, ast.Tuple) else [src(lp.target)]
+                    if f"{model}.{col}" in colsq and len(colsq) == len(tg):
+                        var = tg[colsq.index(f"{model}.{col}")]
+                        for y in ast.walk(lp):
+                            if isinstance(y, ast.Yield) and isinstance(y.value, ast.Tuple) and len(y.value.elts) == 3 and src(y.value.elts[1]) == tmodel and src(y.value.elts[2]) == var:
+                                ok = True
             r3.check(ok, f"{db.rel}:{wn}:{model}.{col}", f"foreign key {model}.{col} -> {target} is not followed by {wn}: the referenced record is not transferred with its owner", db.rel, wf.lineno)
         tables = {}
         for cname, c in db.classes.items():
